@@ -81,6 +81,12 @@ type impl struct {
 	accepted map[int][]string // oracle: points written per data id token, in order
 	closed   bool
 	unsettled string
+	reliable bool
+	resumedEv int
+	onlyInc   int
+	lostInFlight int
+	sortAck      bool
+	dupTransmissions int
 }
 
 func waitUntil(f func() bool) bool {
@@ -145,12 +151,18 @@ func showIDs(ids []*message.DataID) string {
 	return strings.Join(s, ",")
 }
 
-func (i *impl) open(pol, qos, pre string) string {
+func (i *impl) open(pol, qos, pre string, defaultStore bool) string {
 	i.b = broker.New()
 	i.b.HoldAcks = true
 	i.b.Register()
 	i.st = &storage{VerifSentStorage: iscp.VerifNewInmemSentStorage(), removed: map[uint32]bool{}, stored: map[uint32]bool{}}
-	conn, err := iscp.Connect("mem", broker.TransportName, iscp.WithConnPingInterval(time.Hour), iscp.WithConnPingTimeout(time.Hour), iscp.VerifWithSentStorage(i.st))
+	opts := []iscp.ConnOption{iscp.WithConnPingInterval(20 * time.Millisecond), iscp.WithConnPingTimeout(2 * time.Second)}
+	if defaultStore {
+		i.st = nil // whatever sent storage the library chooses by itself
+	} else {
+		opts = append(opts, iscp.VerifWithSentStorage(i.st))
+	}
+	conn, err := iscp.Connect("mem", broker.TransportName, opts...)
 	if err != nil {
 		return "err connect " + err.Error()
 	}
@@ -169,6 +181,11 @@ func (i *impl) open(pol, qos, pre string) string {
 	defer cancel()
 	up, err := conn.OpenUpstream(ctx, "sess", iscp.WithUpstreamFlushPolicy(i.pol), iscp.WithUpstreamQoS(q), iscp.WithUpstreamDataIDs(ids),
 		iscp.WithUpstreamCloseTimeout(watchdog),
+		iscp.WithUpstreamResumedEventHandler(iscp.UpstreamResumedEventHandlerFunc(func(*iscp.UpstreamResumedEvent) {
+			i.mu.Lock()
+			i.resumedEv++
+			i.mu.Unlock()
+		})),
 		iscp.WithUpstreamSendDataPointsHooker(iscp.SendDataPointsHookerFunc(func(_ uuid.UUID, c iscp.UpstreamChunk) {
 			i.mu.Lock()
 			i.sendHook = append(i.sendHook, fmt.Sprintf("%d{%s}", c.SequenceNumber, dp.ShowGroupsSorted(c.DataPointGroups)))
@@ -183,6 +200,8 @@ func (i *impl) open(pol, qos, pre string) string {
 		return "err open " + err.Error()
 	}
 	i.up = up
+	i.reliable = qos == "r"
+	i.onlyInc = -1
 	i.logPos = i.b.LogLen()
 	i.waiting = map[uint32]bool{}
 	i.accepted = map[int][]string{}
@@ -209,21 +228,29 @@ func (i *impl) aliases() string {
 func (i *impl) settle() {
 	last := i.up.State().LastIssuedSequenceNumber
 	ok := waitUntil(func() bool {
-		n := 0
+		seen := map[uint32]bool{}
 		for _, r := range i.b.LogFrom(0) {
-			if _, ok := r.Msg.(*message.UpstreamChunk); ok {
-				n++
+			if c, ok := r.Msg.(*message.UpstreamChunk); ok {
+				seen[c.StreamChunk.SequenceNumber] = true
 			}
 		}
+		n := len(seen)
 		i.mu.Lock()
 		defer i.mu.Unlock()
-		return n >= int(last) && len(i.sendHook) >= int(last) && len(i.ackHook) >= i.results
+		return n >= int(last)-i.lostInFlight && len(i.sendHook) >= int(last) && len(i.ackHook) >= i.results
 	})
 	if !ok {
 		i.mu.Lock()
 		i.unsettled = fmt.Sprintf(" UNSETTLED(last=%d sendhook=%d ackhook=%d results=%d)", last, len(i.sendHook), len(i.ackHook), i.results)
 		i.mu.Unlock()
 	}
+}
+
+// reportOld: report restricted to chunks that arrived on incarnations up to n (the rest are retransmissions listed separately)
+func (i *impl) reportOld(n int) string {
+	i.onlyInc = n
+	defer func() { i.onlyInc = -1 }()
+	return i.report()
 }
 
 // report: everything observable that is new since the previous op
@@ -241,6 +268,9 @@ func (i *impl) report() string {
 	for _, r := range recs {
 		switch m := r.Msg.(type) {
 		case *message.UpstreamChunk:
+			if i.onlyInc >= 0 && r.Inc > i.onlyInc {
+				continue
+			}
 			cs = append(cs, ch{m.StreamChunk.SequenceNumber, fmt.Sprintf("%d{%s}{%s}", m.StreamChunk.SequenceNumber, showWire(m.StreamChunk.DataPointGroups), showIDs(m.DataIDs))})
 			i.waiting[m.StreamChunk.SequenceNumber] = true
 		case *message.UpstreamCloseRequest:
@@ -248,7 +278,13 @@ func (i *impl) report() string {
 		}
 	}
 	sort.Slice(cs, func(a, b int) bool { return cs[a].seq < cs[b].seq })
-	for _, c := range cs {
+	for k, c := range cs {
+		// a chunk cut right after a resume can be transmitted twice (by its own sender and by the retransmission pass that
+		// lists the store concurrently): identical copies are reported once
+		if k > 0 && cs[k-1].s == c.s {
+			i.dupTransmissions++
+			continue
+		}
 		chunks = append(chunks, c.s)
 	}
 	st := i.up.State()
@@ -258,6 +294,14 @@ func (i *impl) report() string {
 	i.nSend, i.nAck = len(i.sendHook), len(i.ackHook)
 	i.mu.Unlock()
 	sort.Strings(sh)
+	if i.sortAck {
+		sort.Slice(ah, func(a, b int) bool {
+			var x, y int
+			fmt.Sscanf(ah[a], "%d:", &x)
+			fmt.Sscanf(ah[b], "%d:", &y)
+			return x < y
+		})
+	}
 	if i.unsettled != "" {
 		closeReq += i.unsettled
 		i.unsettled = ""
@@ -275,7 +319,7 @@ func (i *impl) exec(op string) string {
 			cancel()
 		}
 		*i = impl{}
-		return i.open(w[1], w[2], w[3])
+		return i.open(w[1], w[2], w[3], len(w) > 4 && w[4] == "def")
 	}
 	if i.up == nil {
 		return "nostream"
@@ -371,6 +415,10 @@ func (i *impl) exec(op string) string {
 			return "hang"
 		}
 		waitUntil(func() bool {
+			if i.st == nil {
+				time.Sleep(2 * time.Millisecond)
+				return true
+			}
 			i.st.mu.Lock()
 			defer i.st.mu.Unlock()
 			for _, s := range mustRemove {
@@ -397,6 +445,141 @@ func (i *impl) exec(op string) string {
 			return "err " + err.Error() + " " + out
 		}
 		return out
+	case "kill", "killafter", "killdrop":
+		// sever the transport (between ops / right after a chunk arrived, before its ack / while a chunk is in flight),
+		// let the library reconnect and resume, and report what the stream retransmits
+		st := i.up.State()
+		willCut := len(st.DataPointsBuffer) > 0
+		oldInc := i.b.Cur()
+		switch w[0] {
+		case "kill":
+			oldInc.Kill()
+		case "killafter":
+			if err := i.up.Flush(ctx); err != nil {
+				return "err " + err.Error()
+			}
+			if willCut {
+				seq := st.LastIssuedSequenceNumber + 1
+				i.b.WaitFor(func() bool {
+					for _, r := range i.b.Log {
+						if c, ok := r.Msg.(*message.UpstreamChunk); ok && c.StreamChunk.SequenceNumber == seq {
+							return true
+						}
+					}
+					return false
+				}, watchdog)
+				i.waiting[seq] = true
+			}
+			willCut = false
+			oldInc.Kill()
+		case "killdrop":
+			i.b.Lock()
+			i.b.PreLog = func(inc *broker.Inc, m message.Message) bool {
+				if _, ok := m.(*message.UpstreamChunk); ok {
+					inc.Kill()
+					return true
+				}
+				return false
+			}
+			i.b.Unlock()
+			if err := i.up.Flush(ctx); err != nil {
+				return "err " + err.Error()
+			}
+			if willCut {
+				i.waiting[st.LastIssuedSequenceNumber+1] = true
+				waitUntil(func() bool { return oldInc.Dead() })
+			} else {
+				oldInc.Kill()
+			}
+			i.b.Lock()
+			i.b.PreLog = nil
+			i.b.Unlock()
+			willCut = false
+		}
+		if willCut {
+			i.waiting[st.LastIssuedSequenceNumber+1] = true // cut by the dying flush loop
+		}
+		// the broker acknowledges every retransmitted chunk as it arrives (the stream retransmits one chunk at a time)
+		i.b.Lock()
+		i.b.HoldAcks = false
+		i.b.Unlock()
+		defer func() {
+			i.b.Lock()
+			i.b.HoldAcks = true
+			i.b.Unlock()
+		}()
+		want := 0
+		if i.reliable {
+			want = len(i.waiting)
+		}
+		i.mu.Lock()
+		ev0 := i.resumedEv
+		i.mu.Unlock()
+		ok := waitUntil(func() bool {
+			cur := i.b.Cur()
+			if cur == oldInc {
+				return false
+			}
+			n, resumed := 0, false
+			for _, r := range i.b.LogFrom(0) {
+				if r.Inc != cur.N {
+					continue
+				}
+				switch r.Msg.(type) {
+				case *message.UpstreamResumeRequest:
+					resumed = true
+				case *message.UpstreamChunk:
+					n++
+				}
+			}
+			i.mu.Lock()
+			defer i.mu.Unlock()
+			return resumed && n >= want && i.resumedEv > ev0
+		})
+		// what arrived on the new incarnation
+		cur := i.b.Cur()
+		var resent []string
+		var sameID = "same"
+		for _, r := range i.b.LogFrom(0) {
+			if r.Inc != cur.N {
+				continue
+			}
+			switch m := r.Msg.(type) {
+			case *message.UpstreamResumeRequest:
+				if up := cur.UpByAlias(1); up == nil || up.ID != m.StreamID {
+					sameID = "other"
+				}
+			case *message.UpstreamChunk:
+				resent = append(resent, fmt.Sprintf("%06d{%s}{%s}", m.StreamChunk.SequenceNumber, showWire(m.StreamChunk.DataPointGroups), showIDs(m.DataIDs)))
+			}
+		}
+		sort.Strings(resent)
+		for k := range resent {
+			resent[k] = strings.TrimLeft(resent[k][:6], "0") + resent[k][6:]
+		}
+		if i.reliable {
+			i.results += len(i.waiting) // each retransmission was acknowledged
+			i.waiting = map[uint32]bool{}
+		}
+		if !i.reliable {
+			i.waiting = map[uint32]bool{}
+			seen := map[uint32]bool{}
+			for _, r := range i.b.LogFrom(0) {
+				if c, ok := r.Msg.(*message.UpstreamChunk); ok {
+					seen[c.StreamChunk.SequenceNumber] = true
+				}
+			}
+			i.lostInFlight = int(i.up.State().LastIssuedSequenceNumber) - len(seen)
+		}
+		// chunks of the new incarnation are reported here, not as "new chunks" of the next op
+		i.sortAck = true
+		rep := i.reportOld(oldInc.N)
+		i.sortAck = false
+		i.waiting = map[uint32]bool{} // everything outstanding was retransmitted and acknowledged (or dropped with the store for non-reliable QoS)
+		if !ok {
+			rep += " RESUME-INCOMPLETE"
+		}
+		return rep + fmt.Sprintf(" resumed=%s resent=[%s]", sameID, strings.Join(resent, ";"))
 	case "state":
 		return i.report()
 	}
@@ -522,6 +705,42 @@ func (i *impl) oracle(h *lp.H) {
 	sort.SliceStable(chunkRecs, func(a, b int) bool {
 		return chunkRecs[a].Msg.(*message.UpstreamChunk).StreamChunk.SequenceNumber < chunkRecs[b].Msg.(*message.UpstreamChunk).StreamChunk.SequenceNumber
 	})
+	// a retransmitted chunk shows up once per transmission: all copies of one sequence number must be identical
+	first := map[uint32]string{}
+	var uniq []broker.Rec
+	for _, r := range chunkRecs {
+		m := r.Msg.(*message.UpstreamChunk)
+		sig := showWire(m.StreamChunk.DataPointGroups)
+		// compare resolved content, not the alias form (an id may have got its alias between two transmissions)
+		rs := ""
+		for _, g := range m.StreamChunk.DataPointGroups {
+			switch t := g.DataIDOrAlias.(type) {
+			case *message.DataID:
+				rs += fmt.Sprintf("%d:%s|", dp.Tok(t), dp.ShowPoints(g.DataPoints))
+			case message.DataIDAlias:
+				i.b.Lock()
+				id := st.Aliases[uint32(t)]
+				i.b.Unlock()
+				if id != nil {
+					rs += fmt.Sprintf("%d:%s|", dp.Tok(id), dp.ShowPoints(g.DataPoints))
+				} else {
+					rs += sig
+				}
+			}
+		}
+		parts := strings.Split(strings.TrimSuffix(rs, "|"), "|")
+		sort.Strings(parts)
+		rs = strings.Join(parts, "|")
+		if prev, ok := first[m.StreamChunk.SequenceNumber]; ok {
+			if prev != rs {
+				h.Violate(fmt.Sprintf("sequence number %d was used for different content: %s vs %s", m.StreamChunk.SequenceNumber, prev, rs))
+			}
+			continue
+		}
+		first[m.StreamChunk.SequenceNumber] = rs
+		uniq = append(uniq, r)
+	}
+	chunkRecs = uniq
 	for _, r := range append(chunkRecs, rest...) {
 		switch m := r.Msg.(type) {
 		case *message.UpstreamChunk:
